@@ -123,6 +123,11 @@ func (r *realPatcher) patchPodBatchLabel(pods []*corev1.Pod, ctx *batchcontext.B
 			klog.InfoS("Pod batchID is not a number, skip patching", "pod", klog.KObj(pod), "rollout", r.logKey)
 			continue
 		}
+		if podBatchID < 1 || podBatchID > len(plannedUpdatedReplicasForBatches) {
+			// the label is user-writable: ignore batch ids outside the plan instead of indexing with them
+			klog.InfoS("Pod batchID is out of range, skip patching", "pod", klog.KObj(pod), "rollout", r.logKey)
+			continue
+		}
 		plannedUpdatedReplicasForBatches[podBatchID-1]--
 	}
 	klog.InfoS("updatedButUnpatchedPods amount calculated", "amount", len(updatedButUnpatchedPods),
